@@ -56,12 +56,15 @@ pub struct BoundedDfs {
     replay_only: bool,
     pub shared: Arc<Mutex<Shared>>,
     max_executions: u64,
+    /// levels at or beyond this index are never branched over (used to list
+    /// the distinct schedule prefixes of a given length for sharding)
+    branch_limit: usize,
 }
 
 impl BoundedDfs {
     pub fn new(max_pre: usize, max_dev: usize, data_menu: usize, shared: Arc<Mutex<Shared>>) -> Self {
         shared.lock().unwrap().data_menu = data_menu;
-        BoundedDfs { max_pre, max_dev, levels: vec![], step: 0, pre: 0, dev: 0, started: false, pinned: vec![], replay_only: false, shared, max_executions: u64::MAX }
+        BoundedDfs { max_pre, max_dev, levels: vec![], step: 0, pre: 0, dev: 0, started: false, pinned: vec![], replay_only: false, shared, max_executions: u64::MAX, branch_limit: usize::MAX }
     }
     pub fn with_pinned_prefix(mut self, p: Vec<usize>) -> Self {
         self.pinned = p;
@@ -70,6 +73,10 @@ impl BoundedDfs {
     pub fn replay(mut self, p: Vec<usize>) -> Self {
         self.pinned = p;
         self.replay_only = true;
+        self
+    }
+    pub fn with_branch_limit(mut self, n: usize) -> Self {
+        self.branch_limit = n;
         self
     }
     pub fn with_max_executions(mut self, n: u64) -> Self {
@@ -95,6 +102,9 @@ impl BoundedDfs {
                 // pinned levels are never changed
                 self.levels.push(l);
                 return false;
+            }
+            if idx >= self.branch_limit {
+                continue;
             }
             let mut next = l.chosen + 1;
             while next < l.n_options {
@@ -198,6 +208,7 @@ impl Scheduler for BoundedDfs {
     }
 
     fn next_u64(&mut self) -> u64 {
+        // the harness sets the menu size just before it asks
         let n = self.shared.lock().unwrap().data_menu.max(2);
         self.choose(Kind::Data, n, false) as u64
     }
